@@ -9,6 +9,7 @@ pub mod run;
 pub mod par;
 pub mod searchcase;
 pub mod restrict;
+pub mod shipped;
 pub mod gen {
     pub mod net;
 }
